@@ -1131,7 +1131,8 @@ impl Memory {
         if self.data.len() == 0 {
             return Ok(());
         }
-        let mut cur_addr: u64 = *self.data.iter().next().unwrap().0;
+        // start at the beginning of the first used row so that row gets its label too
+        let mut cur_addr: u64 = (*self.data.iter().next().unwrap().0 >> 4) << 4;
         for (&k, &v) in &self.data {
             debug!("found memory {:x}={:x}", k, v);
             while cur_addr <= k {
